@@ -107,4 +107,22 @@ __CPROVER_ensures((vf_gf >= __CPROVER_old(v->size) && vf_gf < n) ==>
                   (__CPROVER_is_fresh(v->data[vf_gf]._points, sizeof(struct Points)) && v->data[vf_gf]._points->_points.size == 0 &&
                    __CPROVER_is_fresh(v->data[vf_gf]._analogs, sizeof(struct Analogs)) && v->data[vf_gf]._analogs->_subframe.size == 0));
 
+
+/* ---------------------------------------------------------------- vector<int> / vector<float> copy assignment */
+#define VF_SCALAR_VEC_ASSIGN_CONTRACT(TAG, T)                                                                          \
+  void contract_vf_vec_##TAG##_assign(vf_vec_##TAG *v, const vf_vec_##TAG *o)                                          \
+  __CPROVER_requires(v != o && __CPROVER_rw_ok(v, sizeof(*v)) && __CPROVER_r_ok(o, sizeof(*o)) && VF_VEC_OK(*o, T))     \
+  __CPROVER_assigns(v->data, v->size)                                                                                  \
+  __CPROVER_frees(v->data)                                                                                             \
+  __CPROVER_ensures(v->size == o->size && __CPROVER_is_fresh(v->data, VF_VEC_BYTES(*o, T)))                            \
+  __CPROVER_ensures(vf_gv < o->size ==> v->data[vf_gv] == o->data[vf_gv]);
+VF_SCALAR_VEC_ASSIGN_CONTRACT(int, int)
+
+void contract_vf_vec_float_assign(vf_vec_float *v, const vf_vec_float *o)
+__CPROVER_requires(v != o && __CPROVER_rw_ok(v, sizeof(*v)) && __CPROVER_r_ok(o, sizeof(*o)) && VF_VEC_OK(*o, float))
+__CPROVER_assigns(v->data, v->size)
+__CPROVER_frees(v->data)
+__CPROVER_ensures(v->size == o->size && __CPROVER_is_fresh(v->data, VF_VEC_BYTES(*o, float)))
+__CPROVER_ensures(vf_gv < o->size ==> VF_FBITS(v->data[vf_gv]) == VF_FBITS(o->data[vf_gv]));
+
 #endif
